@@ -1498,7 +1498,7 @@ class Interp:
                 return Marker(name)
             return Unk('astropy.units.%s' % last, e)
         if name.startswith('copy.') and last in ('copy', 'deepcopy'):
-            return copy.deepcopy(args[0])
+            return _copy_val(args[0], {})
         if name in ('scipy.interpolate.interp1d', 'scipy.interpolate.interpolate.interp1d'):
             return self._interp1d(args, kw, e, mod)
         return Unk('external call %s' % name, e)
